@@ -56,6 +56,7 @@ CONSTANTS
   Filts,         \* subset of BOOLEAN: subscriptions with a tags filter that excludes tag "drop"
   Meds,          \* subset of BOOLEAN: channel medium with KeepLatestPublication
   AllowClear,    \* history removal / expiry modelled
+  DeltaOpts,     \* subset of BOOLEAN: the per-publication delta option (PublishOptions.UseDelta) offered to Publish
   AsCoded, Withhold
 
 VARIABLES
@@ -95,20 +96,22 @@ Init ==
 
 ---------------------------------------------------------------------------
 (* broker side *)
-Publish(tag) ==
+\* ud = the publication is published with the delta option: only then the broker looks up prevPub and only then
+\* the medium offers its latestPublication as local base; the medium REMEMBERS every publication it broadcasts
+Publish(tag, ud) ==
   /\ npub < MaxPub
   /\ npub' = npub + 1
   /\ IF cfg.kind = "nohist"
        THEN /\ UNCHANGED <<top, win>>
-            /\ wire' = wire \cup {[id |-> npub + 1, off |-> 0, prev |-> 0, tag |-> tag]}
+            /\ wire' = wire \cup {[id |-> npub + 1, off |-> 0, prev |-> 0, tag |-> tag, ud |-> ud]}
        ELSE /\ top' = top + 1
             /\ LET w == Append(win, [off |-> top + 1, id |-> npub + 1, tag |-> tag])
                IN win' = IF Len(w) > HistSize THEN SubSeq(w, Len(w) - HistSize + 1, Len(w)) ELSE w
             \* historyHub.add with UseDelta: the newest publication still in history
             /\ wire' = wire \cup {[id |-> npub + 1, off |-> top + 1,
-                                   prev |-> IF win = <<>> THEN 0 ELSE win[Len(win)].id, tag |-> tag]}
+                                   prev |-> IF win = <<>> \/ ~ud THEN 0 ELSE win[Len(win)].id, tag |-> tag, ud |-> ud]}
   /\ UNCHANGED <<faults, cfg, sess, pc, hub, hres, buf, sub, mlatest, cl, out>>
-  /\ step' = [act |-> "Publish", tag |-> tag, id |-> npub + 1]
+  /\ step' = [act |-> "Publish", tag |-> tag, id |-> npub + 1, ud |-> ud]
 
 ClearHistory ==
   /\ AllowClear /\ win # <<>> /\ cfg.kind # "nohist"
@@ -126,7 +129,7 @@ ClientTakes(f) == [cl EXCEPT !.held = f.id, !.off = IF f.off # 0 /\ cfg.kind = "
 Push(s, d, prev) ==
   LET f == Frame(d.off, d.id, IF s.da THEN prev ELSE 0, cl.held)
   IN /\ sub' = [s EXCEPT !.da = TRUE]
-     /\ out' = Append(out, [t |-> "pub", p |-> f])
+     /\ out' = Append(out, [t |-> "pub", p |-> f, ud |-> d.ud])
      /\ cl' = ClientTakes(f)
 
 \* excluded by the tags filter: as coded a delta subscriber still gets it on the live paths
@@ -137,7 +140,7 @@ PushOrSkip(s, d, prev) == IF Withhold /\ Filtered(d.tag) THEN Skip(s) ELSE Push(
 Receive(d) ==
   IF ~hub THEN UNCHANGED <<hub, buf, sub, mlatest, cl, out>>
   ELSE
-    LET lp == IF cfg.med THEN mlatest ELSE 0 IN
+    LET lp == IF cfg.med /\ d.ud THEN mlatest ELSE 0 IN
     /\ mlatest' = IF cfg.med THEN d.id ELSE mlatest
     /\ IF d.off = 0 THEN
             \* writePublication, Offset == 0: no subscription state consulted (only that the channel entry exists)
@@ -218,7 +221,7 @@ SubFinish ==
   /\ \/ pc = "g3"
      \/ pc = "g1" /\ ~Positioned
   /\ IF ~Positioned
-       THEN /\ out' = Append(out, [t |-> "reply", off |-> 0, recovered |-> FALSE, pubs |-> <<>>])
+       THEN /\ out' = Append(out, [t |-> "reply", off |-> 0, recovered |-> FALSE, pubs |-> <<>>, top |-> 0])
             /\ sub' = [st |-> "live", pos |-> 0, da |-> FALSE]
             /\ pc' = "done" /\ UNCHANGED <<hub, buf, cl>>
        ELSE
@@ -244,7 +247,7 @@ SubFinish ==
                    /\ sub' = [st |-> "ended", pos |-> 0, da |-> FALSE]
                    /\ UNCHANGED cl
               ELSE /\ out' = Append(out, [t |-> "reply", off |-> IF recd THEN cl.off ELSE latest,
-                                         recovered |-> recd, pubs |-> frames])
+                                         recovered |-> recd, pubs |-> frames, top |-> latest])
                    /\ sub' = [st |-> "live", pos |-> latest, da |-> recd /\ (AsCoded \/ seeded)]
                    /\ cl' = [has  |-> cfg.kind = "rec",
                              off  |-> IF cfg.kind # "rec" THEN 0
@@ -266,7 +269,7 @@ EndSession ==
 PubTags == IF cfg.filt THEN {"keep", "drop"} ELSE {"keep"}
 
 Next ==
-  \/ \E t \in PubTags : Publish(t)
+  \/ \E t \in PubTags, ud \in DeltaOpts : Publish(t, ud)
   \/ ClearHistory
   \/ \E d \in wire : Drop(d)
   \/ \E d \in wire, k \in BOOLEAN : Deliver(d, k)
@@ -290,6 +293,21 @@ HeldIsLast ==
      (out[i].t = "pub" /\ \A j \in (i + 1)..Len(out) : out[j].t \notin {"pub", "reply"}) => cl.held = out[i].p.id
 
 TypeOK == faults <= MaxFaults /\ npub <= MaxPub /\ sess <= MaxSess /\ cl.held <= npub
+
+\* Scenarios (negated as invariants by the scn_*.cfg configurations: TLC's counterexample is a shortest behaviour that
+\* reaches the scenario; it is replayed on the real code on every run, whatever the simulation seed visits)
+\*  - a recovered reply whose last publication is NOT the position the subscription continues from (the tail was
+\*    buffered inside the subscribe window and withheld by the tags filter), then a live publication
+ScnWithheldTail == \E i \in 1..Len(out) : /\ out[i].t = "reply" /\ out[i].recovered /\ out[i].pubs # <<>>
+                                           /\ out[i].pubs[Len(out[i].pubs)].off = hres.top   \* stream top when history was read
+                                           /\ out[i].top > hres.top                          \* position moved on by a withheld buffered one
+                                           /\ \E j \in (i + 1)..Len(out) : out[j].t = "pub" /\ out[j].ud
+\*  - medium: a publication with the delta option, one without, one with it again, all delivered live
+ScnMixedDeltaOption == cfg.med /\ \E i, j, k \in 1..Len(out) : /\ i < j /\ j < k
+                                   /\ out[i].t = "pub" /\ out[j].t = "pub" /\ out[k].t = "pub"
+                                   /\ out[i].ud /\ ~out[j].ud /\ out[k].ud /\ out[k].p.delta
+NotScnWithheldTail == ~ScnWithheldTail
+NotScnMixedDeltaOption == ~ScnMixedDeltaOption
 
 \* non-vacuity witnesses (used as negated invariants by witness configurations)
 SomeLiveDelta == \E i \in 1..Len(out) : out[i].t = "pub" /\ out[i].p.delta
